@@ -115,7 +115,7 @@ theorem sound_exec {s : Simp} (hs : SimpSound s) (o : Oracle) (cfg : Cfg) (env :
   exact ⟨n, w', hn, hW⟩
 
 /-- the initial state of `run` -/
-example : initState = ⟨0, [], [], [], [], [], [], [], []⟩ := rfl
+example : initState = ⟨0, [], [], [], [], [], [], [], [], [], 0⟩ := rfl
 
 /-! ### non-vacuity: a branching program, a concrete oracle, an instance of `R` -/
 
@@ -346,6 +346,9 @@ example : (run foldSimp exOracle {} exEnv
     Two more hypotheses then, both visible: `hob` — the solver's `unsat` answers are right (`Exec.select` simplifies a
     read of the balance array with them; nothing is assumed of the oracle when balances are off); `hbal` — `I`
     interprets the initial balance array as the start world's balances and `balance_00` as the empty array.
+    With `cfg.sha3` on: SHA3 of a concrete-size memory range — the digest literal for concrete data, the application
+    `f_sha3_<bits>(data)` otherwise, with the path conditions `sha3_data` appends; `hsha`: `I` interprets `f_sha3_<8n>`
+    as the reference's hash of the `n` bytes and the model's hash of concrete data is the reference's.
     Symbolic call / EXTCODE* targets, precompiles (as call targets) and cheat-code addresses end the path stuck: an
     error report, about which nothing is claimed. Known finding kept out by the tag `staticValue`: a value-bearing
     CALL in a static frame succeeds in the code (`TODO: revert if context is static`); the model stops there. Tagged ends (no claim):
@@ -357,22 +360,23 @@ theorem sound_calls {s : Simp} (hs : SimpSound s) (o : Oracle) (cfg : Cfg) (env 
     (hcodes : ∀ a, w.codeOf a = codeOf codes a)
     (hcb : ∀ a prog, codeOf codes a = some prog → ∀ b ∈ prog, b < 256)
     (hz : ∀ a, Modelled codes this a → ZeroStorage w a)
-    (hob : cfg.balances = true → OracleSound o)
+    (hob : cfg.balances = true → OracleSound o) (hnc : cfg.create = false)
     (ce : CEnd) (hce : ce ∈ (runC s o cfg env codes this fuel).ends)
     (htag : ce.e.tag = .normal) (h : Evm.Halt) (hout : ce.e.out = .halt h) (I : Interp) (hI : I.Std)
-    (hbal : cfg.balances = true → BalHyp I cfg w)
+    (hbal : cfg.balances = true → BalHyp I cfg w) (hsha : cfg.sha3 = true → ShaInterp I p cfg)
     (f0 : Evm.Frame) (hR0 : R I env ((codeOf codes this).getD []) p initState f0) (hthis : f0.this = this)
     (hd0 : f0.depth = 0) (hsat : Sat I ce.e.st.path) :
     ∃ n w', Evm.exec p n w f0 = some (w', haltWith h (ce.e.data.map (·.eval I))) ∧
         WRelM I (Modelled codes this) w w' (stoOf ce.stores) (evalLogs I ce.logs) (balSem I w ce.bal) := by
   have hgood := exploreC_sound (o := o) (cfg := cfg) (codes := codes) (p := p) (w0 := w)
-    (S := Modelled codes this) (cs0 := initC env codes this) (H := fun I => cfg.balances = true → BalHyp I cfg w)
-    hs hmem hdep hcodes (fun _ _ h => modelled_of_code h) hcb hob (fun _ h => h) fuel 0 [initC env codes this] {} (by
+    (S := Modelled codes this) (cs0 := initC env codes this)
+    (H := fun I => (cfg.balances = true → BalHyp I cfg w) ∧ (cfg.sha3 = true → ShaInterp I p cfg))
+    hs hmem hdep hcodes (fun _ _ h => modelled_of_code h) hcb hob (fun _ h => h) hnc fuel 0 [initC env codes this] {} (by
       intro cs hm
       rw [List.mem_singleton] at hm
       subst hm; exact goodC_init)
     (by intro e hm; cases hm)
-  obtain ⟨w', ⟨n, hn⟩, hW⟩ := hgood ce hce htag h hout I hI hbal f0 (relC_init hR0 hthis hd0 hcb hz) hsat
+  obtain ⟨w', ⟨n, hn⟩, hW⟩ := hgood ce hce htag h hout I hI ⟨hbal, hsha⟩ f0 (relC_init hR0 hthis hd0 hcb hz) hsat
   exact ⟨n, w', hn, hW⟩
 
 /-! non-vacuity: a caller and a callee -/
@@ -420,8 +424,8 @@ example : ∃ n w', Evm.exec exPC n exWC { exF0 with code := callerCode } =
         simp only [Option.map_some, Option.some.injEq] at hc
         subst hc
         exact hall q (List.mem_of_find?_eq_some hf) b hb)
-    (fun _ _ _ => ⟨rfl, rfl⟩) (fun h => by cases h) ce hce htag (.success []) hout exI exI_std (fun h => by cases h) _ hR
-    rfl rfl (by rw [hp]; exact Sat.nil _)
+    (fun _ _ _ => ⟨rfl, rfl⟩) (fun h => by cases h) rfl ce hce htag (.success []) hout exI exI_std (fun h => by cases h) (fun h => by cases h)
+    _ hR rfl rfl (by rw [hp]; exact Sat.nil _)
   refine ⟨n, w', ?_, ?_, ?_, ?_⟩
   · have hv : haltWith (.success []) (ce.e.data.map (·.eval exI)) = .success (List.replicate 31 0 ++ [0x2a]) := by
       rw [hd]; rfl
@@ -448,16 +452,16 @@ theorem sound_calls_logs {s : Simp} (hs : SimpSound s) (o : Oracle) (cfg : Cfg) 
     (hcodes : ∀ a, w.codeOf a = codeOf codes a)
     (hcb : ∀ a prog, codeOf codes a = some prog → ∀ b ∈ prog, b < 256)
     (hz : ∀ a, Modelled codes this a → ZeroStorage w a)
-    (hob : cfg.balances = true → OracleSound o)
+    (hob : cfg.balances = true → OracleSound o) (hnc : cfg.create = false)
     (ce : CEnd) (hce : ce ∈ (runC s o cfg env codes this fuel).ends)
     (htag : ce.e.tag = .normal) (h : Evm.Halt) (hout : ce.e.out = .halt h) (I : Interp) (hI : I.Std)
-    (hbal : cfg.balances = true → BalHyp I cfg w)
+    (hbal : cfg.balances = true → BalHyp I cfg w) (hsha : cfg.sha3 = true → ShaInterp I p cfg)
     (f0 : Evm.Frame) (hR0 : R I env ((codeOf codes this).getD []) p initState f0) (hthis : f0.this = this)
     (hd0 : f0.depth = 0) (hsat : Sat I ce.e.st.path) :
     ∃ n w', Evm.exec p n w f0 = some (w', haltWith h (ce.e.data.map (·.eval I))) ∧
         w'.logs = w.logs ++ ce.logs.map (fun l => (l.addr.eval I, l.topics.map (·.denote I), l.data.map (·.eval I))) := by
-  obtain ⟨n, w', hn, hW⟩ := sound_calls hs o cfg env codes this fuel p w hmem hdep hcodes hcb hz hob ce hce htag h hout
-    I hI hbal f0 hR0 hthis hd0 hsat
+  obtain ⟨n, w', hn, hW⟩ := sound_calls hs o cfg env codes this fuel p w hmem hdep hcodes hcb hz hob hnc ce hce htag h hout
+    I hI hbal hsha f0 hR0 hthis hd0 hsat
   exact ⟨n, w', hn, hW.logs⟩
 
 /-- the balances, spelled out: what `sound_calls` says with `cfg.balances` on — every account's final balance is the
@@ -468,16 +472,16 @@ theorem sound_calls_balances {s : Simp} (hs : SimpSound s) (o : Oracle) (cfg : C
     (hcodes : ∀ a, w.codeOf a = codeOf codes a)
     (hcb : ∀ a prog, codeOf codes a = some prog → ∀ b ∈ prog, b < 256)
     (hz : ∀ a, Modelled codes this a → ZeroStorage w a)
-    (hob : cfg.balances = true → OracleSound o)
+    (hob : cfg.balances = true → OracleSound o) (hnc : cfg.create = false)
     (ce : CEnd) (hce : ce ∈ (runC s o cfg env codes this fuel).ends)
     (htag : ce.e.tag = .normal) (h : Evm.Halt) (hout : ce.e.out = .halt h) (I : Interp) (hI : I.Std)
-    (hbal : cfg.balances = true → BalHyp I cfg w)
+    (hbal : cfg.balances = true → BalHyp I cfg w) (hsha : cfg.sha3 = true → ShaInterp I p cfg)
     (f0 : Evm.Frame) (hR0 : R I env ((codeOf codes this).getD []) p initState f0) (hthis : f0.this = this)
     (hd0 : f0.depth = 0) (hsat : Sat I ce.e.st.path) :
     ∃ n w', Evm.exec p n w f0 = some (w', haltWith h (ce.e.data.map (·.eval I))) ∧
         ∀ a, w'.balanceOf a = balSem I w ce.bal a := by
-  obtain ⟨n, w', hn, hW⟩ := sound_calls hs o cfg env codes this fuel p w hmem hdep hcodes hcb hz hob ce hce htag h hout
-    I hI hbal f0 hR0 hthis hd0 hsat
+  obtain ⟨n, w', hn, hW⟩ := sound_calls hs o cfg env codes this fuel p w hmem hdep hcodes hcb hz hob hnc ce hce htag h hout
+    I hI hbal hsha f0 hR0 hthis hd0 hsat
   exact ⟨n, w', hn, hW.bal⟩
 
 /-- events: the callee at 0x2000 emits `LOG1(topic 7, mem[0..32) = 0x2a)` and then stops (`logCallee true`) or hits
@@ -559,6 +563,20 @@ theorem exWB_bound : BalBound exWB := by
   have h : ¬ a = 0x1000 := by simpa using ha
   have h' : ((0x1000 : Nat) == a) = false := by rw [beq_eq_false_iff_ne]; exact fun e => h e.symm
   simp [exWB, Evm.World.balanceOf, Evm.lookupD, List.find?_cons, h']
+
+/-- SHA3 (`cfg.sha3` on): `mstore(0, 0x2a); mstore(0, keccak256(mem[0..32))); return(0, 32)` — the model pushes the
+    digest literal (concrete data) and appends `f_sha3_256(0x2a) == digest` and the two injectivity witnesses; the
+    reference (with the real Keccak-256) returns the same digest -/
+def shaCode : List Nat := [0x60, 0x2a, 0x60, 0, 0x52, 0x60, 32, 0x60, 0, 0x20, 0x60, 0, 0x52, 0x60, 32, 0x60, 0, 0xf3]
+
+example :
+    (runC foldSimp exOracle { sha3 := true } exEnv [(0x1000, shaCode)] 0x1000 100).ends.map
+        (fun ce => (ce.e.out, ce.e.tag, ce.e.st.path.length, Evm.bytesToNat (ce.e.data.map (·.eval exI)))) =
+      [(.halt (.success []), .normal, 3, Keccak.keccak256 (List.replicate 31 0 ++ [0x2a]))] ∧
+    (Evm.exec { exPC with keccak := Keccak.keccak256 } 40 { exWC with code := [(0x1000, shaCode)] }
+        { exF0 with code := shaCode }).map (fun r => Evm.bytesToNat r.2.data) =
+      some (Keccak.keccak256 (List.replicate 31 0 ++ [0x2a])) := by
+  decide +kernel
 
 /-- a reverting callee: `sstore(0, 7); mstore(0, 0x2a); revert(0, 32)` -/
 def revCallee : List Nat := [0x60, 7, 0x60, 0, 0x55, 0x60, 0x2a, 0x60, 0, 0x52, 0x60, 32, 0x60, 0, 0xfd]
